@@ -82,6 +82,7 @@ pub fn six_entry_points<S: Src>(s: &mut S) {
     let v = {
         let _ = v;
         if !valid_hand(&w) {
+            check!(s, !h.is_valid(), "C02.six_entry_points.is_valid_exact");
             check!(s, h.hand_rank_value_validated() == 0, "C02.six_entry_points.validated");
             return;
         }
@@ -106,6 +107,7 @@ pub fn seven_entry_points<S: Src>(s: &mut S) {
     let v = {
         let _ = v;
         if !valid_hand(&w) {
+            check!(s, !h.is_valid(), "C02.seven_entry_points.is_valid_exact");
             check!(s, h.hand_rank_value_validated() == 0, "C02.seven_entry_points.validated");
             return;
         }
